@@ -72,7 +72,7 @@ def catalogue():
         add("Operation.add_side_edge(corner)", c, exp, lambda c=c: cb.Box([0, 0, 0], [1, 1, 1]).add_side_edge(c, cb.Arc([0.1, 0.1, 0.5])))
     for c, exp in ((-1, "out"), (0, "in"), (7, "in"), (8, "out")):
         add("Operation.project_corner(corner)", c, exp, lambda c=c: cb.Box([0, 0, 0], [1, 1, 1]).project_corner(c, "geo"))
-    for (c1, c2), exp in (((0, 1), "in"), ((3, 0), "in"), ((2, 6), "in"), ((0, 2), "out"), ((0, 6), "out"), ((0, 8), "out"), ((-1, 0), "out"), ((4, 4), "out")):
+    for (c1, c2), exp in (((0, 1), "in"), ((3, 0), "in"), ((2, 6), "in"), ((0, 2), "out"), ((0, 6), "out"), ((0, 8), "out"), ((-1, 0), "out"), ((4, 4), "out"), ((-1, 4), "out"), ((-1, 3), "out"), ((-8, 1), "out"), ((0, -4), "out"), ((4, -1), "out")):
         add("Operation.project_edge(corners)", (c1, c2), exp, lambda c1=c1, c2=c2: cb.Box([0, 0, 0], [1, 1, 1]).project_edge(c1, c2, "geo"))
     for a, exp in ((-1, "out"), (0, "in"), (2, "in"), (3, "out")):
         add("Operation.chop(axis)", a, exp, lambda a=a: cb.Box([0, 0, 0], [1, 1, 1]).chop(a, count=3))
